@@ -314,6 +314,11 @@ def crash_signature(stderr):
     return '%s in %s' % (kind, frame)
 
 
+def cleanup_scratch(pid):
+    for p in glob.glob('/dev/shm/vp-%d-*' % pid):
+        shutil.rmtree(p, ignore_errors=True)
+
+
 def tmpdir_for(prop):
     d = os.path.join('/dev/shm', 'vpdrv-%s-%d' % (prop, os.getpid()))
     shutil.rmtree(d, ignore_errors=True)
@@ -486,6 +491,7 @@ class PropRunner:
                 rc = -999
             errf.close()
             outf.close()
+            cleanup_scratch(p.pid)
             results.append((rc, pre))
         agg = dict(evaluations=0, hashes=set(), labels={}, samples=[], discarded=0, shards=shards,
                    wall_s=time.time() - t0, excluded_by_known_finding=0, extra=[])
@@ -563,11 +569,14 @@ class PropRunner:
                 cmd = [binpath, 'fixed', '--from', str(frm), '--out', pre + '.out', '--fail', pre + '.fail',
                        '--cur', pre + '.cur', '--hashes', pre + '.hashes']
                 with open(pre + '.stderr', 'w') as errf, open(pre + '.stdout', 'w') as outf:
+                    pr = subprocess.Popen(cmd, env=env, stdout=outf, stderr=errf)
                     try:
-                        rc = subprocess.run(cmd, env=env, stdout=outf, stderr=errf,
-                                            timeout=(deadline - time.time() + 5) if deadline else None).returncode
+                        rc = pr.wait(timeout=(deadline - time.time() + 5) if deadline else None)
                     except subprocess.TimeoutExpired:
+                        pr.kill()
+                        pr.wait()
                         rc = -999
+                    cleanup_scratch(pr.pid)
                 o = None
                 if os.path.exists(pre + '.out'):
                     try:
@@ -644,11 +653,180 @@ class PropRunner:
         agg['wall_s'] = time.time() - t0
         return agg
 
+    # -- libFuzzer campaign ----------------------------------------------------
+    def fuzz(self, harness, label, jobs, runs, corpus_dir, dict_file=None, max_len=4096, extra_env=None,
+             timeout=None):
+        binpath = build_harness(harness)
+        t0 = time.time()
+        procs = []
+        for i in range(jobs):
+            seed = derive_seed(self.seed, self.prop + label, i) % 2147483647 or 1
+            work = os.path.join(self.tmp, '%s-%d' % (label, i))
+            os.makedirs(work + '/corpus')
+            for f in sorted(glob.glob(os.path.join(corpus_dir, '*'))):
+                shutil.copy(f, work + '/corpus/')
+            env = dict(os.environ)
+            env.update(SAN_ENV)
+            env['VP_FUZZ_STATS'] = work + '/stats.json'
+            if extra_env:
+                env.update(extra_env)
+            cmd = [binpath, '-runs=%d' % runs, '-seed=%d' % seed, '-max_len=%d' % max_len,
+                   '-artifact_prefix=%s/' % work, '-print_final_stats=1', '-timeout=30']
+            if dict_file:
+                cmd.append('-dict=' + dict_file)
+            cmd.append(work + '/corpus')
+            errf = open(work + '/stderr', 'w')
+            p = subprocess.Popen(cmd, env=env, stdout=errf, stderr=errf, cwd=work)
+            procs.append((p, work, errf))
+        agg = dict(evaluations=0, hashes=set(), labels={}, samples=[], discarded=0, shards=jobs,
+                   excluded_by_known_finding=0, extra=[], distinct=0, parsed=0, accepted=0)
+        deadline = time.time() + timeout if timeout else None
+        for p, work, errf in procs:
+            try:
+                rc = p.wait(timeout=max(1, deadline - time.time()) if deadline else None)
+            except subprocess.TimeoutExpired:
+                p.kill()
+                p.wait()
+                rc = -999
+            errf.close()
+            cleanup_scratch(p.pid)
+            se = open(work + '/stderr', errors='replace').read()
+            m = re.search(r'stat::number_of_executed_units:\s*(\d+)', se)
+            if os.path.exists(work + '/stats.json'):
+                try:
+                    st = json.load(open(work + '/stats.json'))
+                    agg['evaluations'] += st.get('execs', 0)
+                    agg['distinct'] += st.get('distinct_reached_compiler', 0)
+                    agg['parsed'] += st.get('parsed', 0)
+                    agg['accepted'] += st.get('accepted', 0)
+                    if st.get('sample') and len(agg['samples']) < 3:
+                        agg['samples'].append(st['sample'])
+                except Exception:
+                    pass
+            elif m:
+                agg['evaluations'] += int(m.group(1))
+            arts = [a for a in glob.glob(work + '/crash-*') + glob.glob(work + '/leak-*')]
+            if rc == -999:
+                self.inconclusive += 1
+                self.notes.append('fuzz job %s hit the watchdog (inconclusive)' % work)
+                continue
+            if rc == 0 and not arts:
+                continue
+            if not arts:
+                # slow-unit / timeout / oom artifacts are load noise, not violations
+                self.notes.append('fuzz job ended rc=%s without crash artifact: %s' % (rc, se[-400:]))
+                self.inconclusive += 1
+                continue
+            for a in arts:
+                sig = crash_signature(se)
+                mo = re.search(r'VP-ORACLE: ([^\n]+)', se)
+                if mo:
+                    sig = 'oracle: ' + mo.group(1)[:200]
+                self.judge_artifact(binpath, a, sig, se, env=extra_env)
+        agg['wall_s'] = time.time() - t0
+        return agg
+
+    def judge_artifact(self, binpath, artifact, sig, report, env=None):
+        nsig = re.sub(r'\d+', 'N', sig)[:160]
+        judged = getattr(self, 'judged_sigs', None)
+        if judged is None:
+            judged = self.judged_sigs = set()
+        if nsig in judged:
+            return
+        judged.add(nsig)
+        k = match_known(self.prop, sig, sig)
+        if k:
+            self.known_hits.setdefault(k['what'], 0)
+            self.known_hits[k['what']] += 1
+            return
+        e = dict(os.environ)
+        e.update(SAN_ENV)
+        if env:
+            e.update(env)
+        r = subprocess.run([binpath, artifact], env=e, capture_output=True, text=True, errors='replace')
+        if r.returncode == 0:
+            self.notes.append('fuzz artifact did not reproduce: ' + sig)
+            self.inconclusive += 1
+            return
+        d = os.path.join(OUTDIR, 'violations')
+        os.makedirs(d, exist_ok=True)
+        tag = sha(read(artifact))[:10]
+        path = os.path.join(d, '%s-%s.fuzz' % (self.prop, tag))
+        shutil.copy(artifact, path)
+        with open(path + '.report.txt', 'w') as f:
+            f.write(report[-8000:])
+        self.violations.append((sig, path))
+
+    # -- the real oomd binary on configuration documents -------------------------
+    def bincheck(self, docs, label='bin'):
+        """docs: list of (name, text). `oomd --check-config` must exit 0 or 1, never die by a signal or a
+        sanitizer / terminate report."""
+        binpath = build_harness('oomd_bin')
+        work = os.path.join(self.tmp, label)
+        os.makedirs(work, exist_ok=True)
+        env = dict(os.environ)
+        env.update(SAN_ENV)
+        env['INLINE_LOGGING'] = '1'
+        results = dict(n=0, accepted=0, rejected=0)
+
+        def one(item):
+            i, (name, text) = item
+            f = os.path.join(work, 'doc%d.json' % i)
+            with open(f, 'w') as fh:
+                fh.write(text)
+            r = subprocess.run([binpath, '--check-config', f, '--kmsg-override', os.path.join(work, 'kmsg%d' % (i % 16)),
+                                '--cgroup-fs', work],
+                               env=env, capture_output=True, text=True, errors='replace', timeout=60)
+            return name, text, r.returncode, r.stderr
+
+        with ThreadPoolExecutor(NCPU) as ex:
+            outs = list(ex.map(one, enumerate(docs)))
+        for name, text, rc, se in outs:
+            results['n'] += 1
+            if rc == 0:
+                results['accepted'] += 1
+            elif rc == 1 and 'Sanitizer' not in se and 'terminate called' not in se:
+                results['rejected'] += 1
+            else:
+                sig = 'oomd --check-config: ' + crash_signature(se) + ' (exit %s)' % rc
+                nsig = re.sub(r'\d+', 'N', sig)
+                judged = getattr(self, 'judged_sigs', None)
+                if judged is None:
+                    judged = self.judged_sigs = set()
+                if nsig in judged:
+                    continue
+                judged.add(nsig)
+                k = match_known(self.prop, sig, sig)
+                if k:
+                    self.known_hits.setdefault(k['what'], 0)
+                    self.known_hits[k['what']] += 1
+                    continue
+                dd = os.path.join(OUTDIR, 'violations')
+                os.makedirs(dd, exist_ok=True)
+                path = os.path.join(dd, '%s-%s.cfg' % (self.prop, sha(text)[:10]))
+                with open(path, 'w') as fh:
+                    fh.write(text)
+                with open(path + '.report.txt', 'w') as fh:
+                    fh.write(se[-6000:])
+                self.violations.append((sig, path))
+        return results
+
     def replay_tier(self, harness, extra_env=None):
         d = os.path.join(VERIF, 'replays', self.prop)
+        n_art = 0
+        for f in sorted(glob.glob(os.path.join(d, '*.cfg')) + glob.glob(os.path.join(d, '*.fuzz'))):
+            n_art += 1
+            if cmd_replay(self.prop, f, quiet=True) != 0:
+                why = 'saved artifact fails again: ' + os.path.basename(f)
+                k = match_known(self.prop, why, why)
+                if k:
+                    self.known_hits.setdefault(k['what'], 0)
+                    self.known_hits[k['what']] += 1
+                else:
+                    self.violations.append((why, f))
         files = sorted(glob.glob(os.path.join(d, '*.json')))
         if not files:
-            return 0
+            return n_art
         binpath = build_harness(harness)
         n = 0
         for f in files:
@@ -668,7 +846,7 @@ class PropRunner:
                 self.known_hits[k['what']] += 1
                 continue
             self.violations.append((why, f))
-        return n
+        return n + n_art
 
 
 class InfraError(Exception):
@@ -724,8 +902,20 @@ def cmd_run(prop, tier, seed):
     return 0
 
 
-def cmd_replay(prop, path):
+def cmd_replay(prop, path, quiet=False):
     spec = PROPS[prop]
+    if path.endswith('.fuzz') or path.endswith('.cfg'):
+        env = dict(os.environ)
+        env.update(SAN_ENV)
+        if path.endswith('.fuzz'):
+            binpath = build_harness(spec.get('fuzz_harness', spec['harness'] + '_fuzz'))
+            r = subprocess.run([binpath, path], env=env, capture_output=quiet)
+        else:
+            binpath = build_harness('oomd_bin')
+            r = subprocess.run([binpath, '--check-config', path, '--kmsg-override', '/dev/null'], env=env,
+                               capture_output=quiet)
+            return 0 if r.returncode in (0, 1) else 1
+        return 0 if r.returncode == 0 else 1
     obj = json.load(open(path))
     harness = obj.get('harness', spec['harness'])
     binpath = build_harness(harness)
